@@ -568,6 +568,9 @@ def check(P, R, tier):
     nu = check_umod(P, R, roots)
     check_packed(P, R)
     check_epoch_sign(P, R)
+    import cmpdecode
+    ncmp = cmpdecode.run_parallel(R, P, "RF2-cmp", jobs=14)
+    R.floor("RF2-cmp", "decoded comparisons", ncmp, 800000)
     check_range(P, R)
     check_dtest(P, R)
     check_dsort(P, R)
